@@ -187,7 +187,7 @@ func c20(w *core.World, r *core.Report) {
 							}
 							if uses {
 								for _, fct := range p.Conds {
-									c, ok := core.AsCmp(fct.Cond, fct.Val)
+									c, ok := core.FactCmp(fct)
 									if ok && (c.Op == token.EQL || c.Op == token.NEQ) && core.IsNilConst(c.Y) {
 										if e2, ok := p.Resolve(c.X).(*ssa.Extract); ok && e2.Tuple == ssa.Value(cb) && e2.Index == 1 {
 											tested = true
@@ -342,7 +342,7 @@ func c20(w *core.World, r *core.Report) {
 	if g := fn(w, r, "(*syncer.RedisOutput).validateBisyncRdbExecReplies"); g != nil {
 		// the loop over the EXEC replies: the one that asks whether a reply is an error reply
 		var ta *ssa.TypeAssert
-		for _, in := range core.OwnInstrs(g) {
+		for _, in := range core.Instrs(g) { // the validation may be split into phases, each a function of its own
 			if t, ok := in.(*ssa.TypeAssert); ok && t.CommaOk && strings.HasSuffix(core.TypeName(t.AssertedType), "common.RedisError") && core.LoopHeadOf(t.Block()) != nil {
 				ta = t
 			}
@@ -455,9 +455,14 @@ func rulePolicySet(w *core.World, r *core.Report) {
 				continue
 			}
 			if fa, ok := st.Addr.(*ssa.FieldAddr); ok && core.FieldName(fa) == "KeyExists" {
-				if s, ok := core.ConstString(st.Val); ok && (s == "replace" || s == "ignore" || s == "error") {
-					found = true
-				}
+				// a policy constant is what the field falls back to (directly, or as one of the values a
+				// normalising helper returns)
+				core.Walk(st.Val, func(v ssa.Value) bool {
+					if s, ok := core.ConstString(v); ok && (s == "replace" || s == "ignore" || s == "error") {
+						found = true
+					}
+					return !found
+				})
 			}
 		}
 	}
@@ -533,7 +538,7 @@ func ruleBisyncRdbPolicy(w *core.World, r *core.Report) {
 		if s, ok := core.ConstString(st.Val); ok && s == "del" {
 			rep, first := false, false
 			for _, fct := range core.FactsAt(st.Block()) {
-				if c, ok := core.AsCmp(fct.Cond, fct.Val); ok && c.Op == token.EQL && isConstStr("replace")(c.Y) {
+				if c, ok := core.FactCmp(fct); ok && c.Op == token.EQL && isConstStr("replace")(c.Y) {
 					rep = true
 				}
 				if fct.Val && isFirst(fct.Cond) {
@@ -654,7 +659,7 @@ func ruleBisyncRestoreReplace(w *core.World, r *core.Report) {
 		return
 	}
 	isPolicyTest := func(p *core.Path, fct core.Fact) (isTest, replace bool) {
-		c, ok := core.AsCmp(fct.Cond, fct.Val)
+		c, ok := core.FactCmp(fct)
 		if !ok || (c.Op != token.EQL && c.Op != token.NEQ) {
 			return false, false
 		}
@@ -760,7 +765,17 @@ func ruleChunksSameWorker(w *core.World, r *core.Report) {
 		return false
 	}
 	n := 0
-	for _, g := range core.DeepFuncs(f) {
+	var cands []*ssa.Function
+	seenFn := map[*ssa.Function]bool{}
+	for _, top := range w.FuncsIn("syncer") {
+		for _, g := range core.DeepFuncs(top) {
+			if !seenFn[g] {
+				seenFn[g] = true
+				cands = append(cands, g)
+			}
+		}
+	}
+	for _, g := range cands {
 		if !receivesEntries(g) {
 			continue
 		}
@@ -810,7 +825,7 @@ func ruleChunksSameWorker(w *core.World, r *core.Report) {
 					}
 					noKey := false
 					for _, fct := range p.Conds {
-						c, ok := core.AsCmp(fct.Cond, fct.Val)
+						c, ok := core.FactCmp(fct)
 						if !ok || !isLenZero(c) {
 							continue
 						}
@@ -829,7 +844,7 @@ func ruleChunksSameWorker(w *core.World, r *core.Report) {
 						}
 					}
 					if !noKey {
-						bad = "an entry that may carry a key is handed to a worker that is not chosen from the key: later chunks of a split value reach a worker that did not see the first chunk, so the key-exists decision (probe, DEL, ignored-key memo) made there does not apply to them"
+						bad = "an entry that may carry a key is handed to a worker that is not chosen from the key: later chunks of a split value reach a worker that did not see the first chunk, so the key-exists decision (probe, DEL, ignored-key memo) made there is unknown to that worker"
 					}
 				})
 				if !okEnum {
